@@ -58,6 +58,7 @@ type Contract struct {
 	Lets     map[string]ast.Expr
 	RecFuns  []*Pred
 	Pkg      string // package of the file the contract was written in ("" for /verif/libcontracts)
+	SeedNeighbours bool // `seeds neighbours`: goal-side bound variables also instantiate at j+1 and j-1
 	GuardTriggers bool // quantified clauses of the form imp(guard, body) use the guard as E-matching trigger
 	Uses     map[string][]string // clause label -> the only requires/invariant labels its proof obligations may use
 	RetHints []*Clause // lemmas proved at every return before the postconditions
@@ -213,7 +214,11 @@ func (ss *SpecSet) parseFile(path string, trusted bool, pkgName string) {
 		case "option":
 			finish()
 			if len(fields) > 1 && fields[1] == "guard-triggers" {
-				fileGuardTriggers = true
+				if cur != nil {
+					cur.GuardTriggers = true // inside a contract: for this contract only
+				} else {
+					fileGuardTriggers = true
+				}
 			}
 			continue
 		case "ghost":
@@ -376,6 +381,12 @@ func (ss *SpecSet) parseFile(path string, trusted bool, pkgName string) {
 		case "nobody":
 			finish()
 			cur.NoBody = true
+			continue
+		case "seeds":
+			finish()
+			if len(fields) > 1 && fields[1] == "neighbours" {
+				cur.SeedNeighbours = true
+			}
 			continue
 		case "params":
 			finish()
